@@ -14,6 +14,8 @@ package agent
 //
 // Second family (reroute_test.go): re-announcement after a topology change behind an unchanged next
 // hop (link failure / late chord between the next hop and the origin); same clause, every event.
+// Third family (joiner_test.go): a peer joins an agent that holds the origin over several next hops and is
+// given a full table composed from that agent's tables. All families: c13Prefer (nearest presence route).
 
 import (
 	"fmt"
@@ -25,9 +27,45 @@ import (
 	"github.com/postalsys/muti-metroo/internal/vmc"
 )
 
+// c13Prefer is the preference clause for agent-presence routes (the statement's second sentence; the
+// property is quantified over CIDR, domain, forward AND agent-presence routes, and two equally specific
+// presence routes are always two ways to the same agent over different next hops): when an agent holds
+// several presence routes to one agent, the one its lookup returns has the fewest hops along its recorded
+// path among those held. Evaluated after every event in all families.
+func c13Prefer(r *vmc.Result, nt *nsNet, scs string, hist []string, rep func() any) {
+	for i := 0; i < nt.n; i++ {
+		for j := 0; j < nt.n; j++ {
+			if i == j {
+				continue
+			}
+			held := nt.agents[i].routeMgr.AgentTable().GetRoutesForAgent(nt.ids[j])
+			if len(held) < 2 {
+				continue
+			}
+			got := nt.agents[i].routeMgr.LookupAgent(nt.ids[j])
+			if got == nil {
+				continue
+			}
+			nearest := held[0]
+			for _, h := range held[1:] {
+				if len(h.Path) < len(nearest.Path) {
+					nearest = h
+				}
+			}
+			r.Nontrivial(fmt.Sprintf("presence-choice|held=%d|hops=%d|nearest=%d", len(held), len(got.Path), len(nearest.Path)))
+			if len(got.Path) > len(nearest.Path) {
+				r.Violate(fmt.Sprintf("C13/farther-presence-route-preferred/hops=%d/nearest-held=%d", len(got.Path), len(nearest.Path)),
+					fmt.Sprintf("%s: after %v agent n%d looks up agent n%d and gets the route over next hop %s (metric %d, path %s, %d hops) although it holds a nearer one over next hop %s (metric %d, path %s, %d hops)",
+						scs, hist, i, j, nt.name(got.NextHop), got.Metric, nt.pathStr(got.Path), len(got.Path), nt.name(nearest.NextHop), nearest.Metric, nt.pathStr(nearest.Path), len(nearest.Path)), rep())
+			}
+		}
+	}
+}
+
 func c13Check(r *vmc.Result, sc nsFloodScenario) func(nt *nsNet, hist []string) {
 	return func(nt *nsNet, hist []string) {
 		rep := func() any { s := sc; s.History = hist; return s }
+		c13Prefer(r, nt, sc.String(), hist, rep)
 		for i := 0; i < nt.n; i++ {
 			for _, rt := range nt.routes(i) {
 				if rt.NextHop == (identity.AgentID{}) || rt.NextHop == nt.ids[i] || rt.Origin == nt.ids[i] {
@@ -76,7 +114,7 @@ func c13Check(r *vmc.Result, sc nsFloodScenario) func(nt *nsNet, hist []string) 
 
 func TestVerif_C13(t *testing.T) {
 	r := vmc.New("C13", "model_checking")
-	r.Rule = "BFS over all interleavings of announcements and frame deliveries in meshes of real agents (all connected graphs up to 4 agents; exit placements); every learned route in every reached state is checked; plus the reroute family (reroute_test.go): 4-5 agent graphs where the link between A's only neighbour B and the origin fails or comes up late and the origin announces again, every order of announce / deliver / link down / link up, same clause after every event; non-trivial = distinct (table kind, hop count, metric) combinations, nearer-exit lookups, and (table kind, hops before -> after) of entries rewritten over an unchanged next hop observed"
+	r.Rule = "BFS over all interleavings of announcements and frame deliveries in meshes of real agents (all connected graphs up to 4 agents; exit placements); every learned route in every reached state is checked; plus the reroute family (reroute_test.go): 4-5 agent graphs where the link between A's only neighbour B and the origin fails or comes up late and the origin announces again, every order of announce / deliver / link down / link up, same clause after every event; plus the joiner family (joiner_test.go): a peer connects late to an agent that holds the origin over two next hops (junction with chord, 2-3 announcement rounds) and is given a full table composed from that agent's tables; in all families the lookup of an agent with several presence routes held returns a nearest one; non-trivial = distinct (table kind, hop count, metric) combinations, nearer-exit lookups, (table kind, hops before -> after) of entries rewritten over an unchanged next hop, presence choices (held, hops returned, nearest held) and full-table advertisements carrying several presence routes of one agent observed"
 	r.Assume("links are FIFO and reliable; handlers run synchronously per delivered frame (the real agent processes stream-ordered frames sequentially per connection)")
 	r.Assume("map iteration order is fixed to sorted order by the maprange rewriter (routing tables, flooder, peer manager)")
 	var fam struct {
